@@ -180,6 +180,10 @@ def gen_script(r, idx, tier):
             ops.append(["init", lo, [l + 1.0 for l in lo]])
     if r.random() < 0.04:
         ops.append(["setbest", gen_vec(r, d * np_)])      # wrong size: must throw and change nothing
+    if r.random() < 0.03:                                 # wrong sizes somewhere in the middle: must throw and change nothing
+        bad = r.choice([["setpos", gen_vec(r, d * np_ + 1)], ["setvel", gen_vec(r, max(0, d * np_ - 1))],
+                        ["init", [0.0] * (d + 1), [1.0] * (d + 1)], ["init", [0.0] * d, [1.0] * (d - 1)]])
+        ops.insert(r.randrange(1, len(ops) + 1), bad)
     return {"id": str(idx), "d": d, "np": np_, "obj": kind, "coef": coef, "dom": dom, "ops": ops, "klass": klass}
 
 
